@@ -145,9 +145,12 @@ class Model(object):
                     # N10: locals the reference function does not have are replaced by their definition where that is safe
                     again = False
                     for qual, fn in canon.outer_functions(tree):
-                        if '__ifexp__' in ref and canon.align_ifexp(fn, ref['__ifexp__'].get(qual, ())):
-                            again = True
                         new = canon.new_locals(rel, qual, fn)
+                        # N46 only re-spells locals the reference function has; a new local bound by a conditional expression stays one
+                        # binding so that N10 can write it out where it is used
+                        if '__ifexp__' in ref and canon.align_ifexp(fn, ref['__ifexp__'].get(qual, ()), skip=new):
+                            again = True
+                            new = canon.new_locals(rel, qual, fn)
                         if new:
                             done = inline.inline_temps(fn, new)
                             if done:
